@@ -2,9 +2,16 @@
 From OCV Require Import Base.Prelude Syscall.SockIO Syscall.SockIOOracle Syscall.SockIOMain.
 Open Scope Z_scope.
 
-(** all ten entry points (eight byte-moving ones, accept, connect) *)
-Theorem C18_holds : forall c, wf c = true -> ok_C18 c (run_obs c) = true.
-Proof. exact ok_C18_run. Qed.
+(** all ten entry points (eight byte-moving ones, accept, connect), every input the entry points
+    accept except the recorded finding [connect_eintr_spins] *)
+Theorem C18_holds_outside : forall c, wf_input c = true -> no_connect_eintr c = true ->
+  ok_C18 c (run_obs c) = true.
+Proof. intros c H1 H2. apply ok_C18_run. unfold wf. now rewrite H1, H2. Qed.
+
+(** finding: a hooked connect whose inner call fails with EINTR never returns, so the descriptor
+    stays in non-blocking mode (the harness sees the call outlive its watchdog) *)
+Theorem C18_refuted_connect_eintr_spins : exists c, wf_input c = true /\ ok_C18 c (run_obs c) = false.
+Proof. exists (mkCfg SConnect false U64MAX 1000 []%nat [(0, Interrupted)] []). split; vm_compute; reflexivity. Qed.
 
 (** on every exit path the blocking mode is what the caller set *)
 Theorem C18_mode_restored : forall c o, ok_C18 c (RObs o) = true -> o_nb_after o = c_nb c.
@@ -33,6 +40,7 @@ Example C18_nonvacuous :
   /\ ok_C18 c3 (RObs (mkObs 0 0 [mkReq 1 true [(0, 0, 4)]%nat EAGAIN 0] [] [SLICE] true false)) = false.
 Proof. repeat split; vm_compute; reflexivity. Qed.
 
-Print Assumptions C18_holds.
+Print Assumptions C18_holds_outside.
+Print Assumptions C18_refuted_connect_eintr_spins.
 Print Assumptions C18_mode_restored.
 Print Assumptions C18_no_wait_when_nonblocking.
